@@ -27,8 +27,8 @@ class DPT2ByteSigned(DPTNumeric):
     value_type = "2byte_signed"
     payload_length = 2
 
-    value_min = -32768
-    value_max = 32767
+    value_min: int | float = -32768
+    value_max: int | float = 32767
     resolution: int | float = 1
 
     # not using DPTStructIntMixin because return type of from_knx can be float when resolution is < 1
@@ -48,9 +48,9 @@ class DPT2ByteSigned(DPTNumeric):
     def to_knx(cls, value: int | float) -> DPTArray:
         """Serialize to KNX/IP raw data."""
         try:
-            knx_value = round(float(value) / cls.resolution)
-            if not (cls.value_min <= knx_value <= cls.value_max):
+            if not (cls.value_min <= float(value) <= cls.value_max):
                 raise ValueError("Value out of range")
+            knx_value = round(float(value) / cls.resolution)
             return DPTArray(struct.pack(cls._struct_format, knx_value))
         except (ValueError, struct.error) as err:
             raise ConversionError(
@@ -82,6 +82,8 @@ class DPTDeltaTime10Msec(DPT2ByteSigned):
     dpt_main_number = 8
     dpt_sub_number = 3
     value_type = "delta_time_10ms"
+    value_min = -327680
+    value_max = 327670
     resolution = 10
     unit = "ms"
 
@@ -92,6 +94,8 @@ class DPTDeltaTime100Msec(DPT2ByteSigned):
     dpt_main_number = 8
     dpt_sub_number = 4
     value_type = "delta_time_100ms"
+    value_min = -3276800
+    value_max = 3276700
     resolution = 100
     unit = "ms"
 
@@ -129,6 +133,8 @@ class DPTPercentV16(DPT2ByteSigned):
     dpt_main_number = 8
     dpt_sub_number = 10
     value_type = "percentV16"
+    value_min = -327.68
+    value_max = 327.67
     resolution = 0.01
     unit = "%"
 
